@@ -23,11 +23,11 @@ Local Open Scope nat_scope.
 (* ------------------------------------------------------------------ *)
 (* exceptions, contexts, events *)
 
-Inductive exc := EForbidden | ENotFound | EPredMismatch | EValueError | EBoom.
+Inductive exc := EForbidden | ENotFound | EPredMismatch | EValueError | EBoom | ECsrf.   (* ECsrf: BadCSRFToken (HTTPBadRequest) *)
 Definition exc_eqb (a b : exc) : bool :=
   match a, b with
   | EForbidden, EForbidden | ENotFound, ENotFound | EPredMismatch, EPredMismatch
-  | EValueError, EValueError | EBoom, EBoom => true
+  | EValueError, EValueError | EBoom, EBoom | ECsrf, ECsrf => true
   | _, _ => false
   end.
 
@@ -94,10 +94,11 @@ Record dview := mkD {
   d_perm : option text;       (* permission closed over by _secured_view; None = the deriver returned the view unchanged *)
   d_wrapper : text;           (* wrapper= ; '' = none *)
   d_deco : bool;              (* decorator= given *)
-  d_body : body
+  d_body : body;
+  d_csrf : bool               (* csrf_view is enabled for this view: require_csrf=True *)
 }.
 
-Inductive wrapper := WPred | WSecured (p : text) | WOWrapped (n : text) | WDeco.
+Inductive wrapper := WPred | WSecured (p : text) | WOWrapped (n : text) | WDeco | WCsrf.
 
 Definition nm_predicated_view : text := [112; 114; 101; 100; 105; 99; 97; 116; 101; 100; 95; 118; 105; 101; 119]%N.
 Definition nm_secured_view : text := [115; 101; 99; 117; 114; 101; 100; 95; 118; 105; 101; 119]%N.
@@ -128,6 +129,7 @@ Definition wrap_of (d : dview) (name : text) : list wrapper :=
           then match d_perm d with Some p => [WSecured p] | None => [] end else [])
   else if text_eqb name nm_owrapped_view then match d_wrapper d with [] => [] | n => [WOWrapped n] end
   else if text_eqb name nm_decorated_view then (if d_deco d then [WDeco] else [])
+  else if text_eqb name nm_csrf_view then (if d_csrf d then [WCsrf] else [])
   else [].
 Definition wrappers (d : dview) : list wrapper := flat_map (wrap_of d) deriver_names.
 
@@ -141,11 +143,12 @@ Record rq5 := mkRq5 {
   q_comb_sro : list N;          (* (oracle) request_iface.combined.__sro__ : exception-view lookups *)
   q_wrap_sro : list N;          (* (oracle) providedBy(request).__sro__ : render_view_to_response *)
   q_res_sro : list N;           (* (oracle) providedBy(context).__sro__ *)
-  q_exc_sro : list (list N)     (* (oracle) providedBy(exception).__sro__ by exception kind *)
+  q_exc_sro : list (list N);    (* (oracle) providedBy(exception).__sro__ by exception kind *)
+  q_csrf_ok : bool              (* the method is safe, or the request carries the token the storage policy expects *)
 }.
 
 Definition exc_index (e : exc) : nat :=
-  match e with EForbidden => 0 | ENotFound => 1 | EPredMismatch => 2 | EValueError => 3 | EBoom => 4 end.
+  match e with EForbidden => 0 | ENotFound => 1 | EPredMismatch => 2 | EValueError => 3 | EBoom => 4 | ECsrf => 5 end.
 Definition sro_of (q : rq5) (c : ctx) : list N :=
   match c with CRes _ => q_res_sro q | CExc e => nth (exc_index e) (q_exc_sro q) [] end.
 
@@ -191,6 +194,8 @@ Section Call.
         then let '(tr, o) := run_ws lookup r d t c in (Permits p c true :: tr, o)
         else ([Permits p c false], Raise EForbidden)
     | WDeco :: r => let '(tr, o) := run_ws lookup r d t c in (Deco t c :: tr, o)
+    | WCsrf :: r =>        (* check_csrf_token(request, ..., raises=True) for unsafe methods, then the view *)
+        if q_csrf_ok q then run_ws lookup r d t c else ([], Raise ECsrf)
     | WOWrapped n :: r =>
         let '(tr, o) := run_ws lookup r d t c in
         match o with
@@ -248,6 +253,93 @@ Section Call.
 
   Definition fuel0 : nat := 6.
 
+  (* ---- secure=False: what _call_view does with __call_permissive__ (never used by the router, see
+     Proofs: router_uses_secure).  The attribute exists only on a view _secured_view wrapped and names the view
+     BELOW that wrapper: everything above it -- the predicates too -- is skipped by the callable itself; the repaired
+     _call_view therefore evaluates __predicated__ first (regenerated fact permissive_checks_predicates). *)
+  Fixpoint below_secured (ws : list wrapper) : option (list wrapper) :=
+    match ws with
+    | [] => None
+    | WSecured _ :: r => Some r
+    | _ :: r => below_secured r
+    end.
+
+  Definition call_reg_permissive (lookup : text -> ctx -> trace * res) (v : reg) (c : ctx) : trace * res :=
+    match assocN (r_tag v) D with
+    | Some d => match below_secured (wrappers d) with
+                | Some ws => run_ws lookup ws d (r_tag v) c
+                | None => run_ws lookup (wrappers d) d (r_tag v) c
+                end
+    | None => ([], Stuck)
+    end.
+
+  (* MultiView.match: the first view without __predicated__ or whose predicates hold *)
+  Fixpoint mv_match (l : list entry) : option reg :=
+    match l with
+    | [] => None
+    | e :: r => if qualifies (q_base q) (e_view e) then Some (e_view e) else mv_match r
+    end.
+
+  (* MultiView.__call_permissive__ *)
+  Definition mv_call_permissive (lookup : text -> ctx -> trace * res) (l : list entry) (c : ctx) : trace * res :=
+    match mv_match l with
+    | Some v => call_reg_permissive lookup v c
+    | None => ([], Raise EPredMismatch)
+    end.
+
+  Definition call_component_s (secure : bool) (lookup : text -> ctx -> trace * res) (cmp : component) (c : ctx)
+      : trace * res :=
+    if secure then call_component5 lookup cmp c
+    else match cmp with
+         | CView v =>
+             (* permissive = getattr(view, '__call_permissive__', None); if present, __predicated__ is evaluated first *)
+             match assocN (r_tag v) D with
+             | Some d =>
+                 if permissive_checks_predicates && is_some (d_perm d) && negb (qualifies (q_base q) (d_reg d))
+                 then ([], Raise EPredMismatch)
+                 else call_reg_permissive lookup v c
+             | None => call_reg_permissive lookup v c
+             end
+         | CMulti m => mv_call_permissive lookup (get_views m (q_base q)) c      (* a MultiView has no __predicated__ *)
+         end.
+
+  Fixpoint call_loop_s (secure : bool) (lookup : text -> ctx -> trace * res) (l : list component) (c : ctx)
+      (pme : bool) : trace * res :=
+    match l with
+    | [] => ([], if pme then Raise EPredMismatch else NoView)
+    | cmp :: r =>
+        let '(tr, o) := call_component_s secure lookup cmp c in
+        match o with
+        | Raise EPredMismatch => let '(tr2, o2) := call_loop_s secure lookup r c true in (tr ++ tr2, o2)
+        | _ => (tr, o)
+        end
+    end.
+
+  (* _call_view(..., secure=secure); the wrapper lookups inside a view stay secure (render_view_to_response default) *)
+  Definition call_view_s (secure : bool) (fuel : nat) (cls : N) (req_sro : list N) (name : text) (c : ctx)
+      : trace * res :=
+    match fuel with
+    | O => ([], Stuck)
+    | S f => call_loop_s secure (fun n c' => call_view5 f view_classifier (q_wrap_sro q) n c')
+                         (find_views R cls req_sro (sro_of q c) name) c false
+    end.
+
+  (* pyramid.view.render_view_to_response(context, request, name, secure) *)
+  Definition render_view (secure : bool) : trace * res :=
+    call_view_s secure fuel0 view_classifier (q_wrap_sro q) (q_view_name (q_base q)) (q_ctx q).
+
+  (* __permitted__ of a derived view (present only when secured) and MultiView.__permitted__ *)
+  Definition permitted_reg (v : reg) (c : ctx) : trace * bool :=
+    match assocN (r_tag v) D with
+    | Some d => match d_perm d with
+                | Some p => ([Permits p c (granted tb p c)], granted tb p c)
+                | None => ([], true)
+                end
+    | None => ([], true)
+    end.
+  Definition mv_permitted (l : list entry) (c : ctx) : option (trace * bool) :=
+    match mv_match l with Some v => Some (permitted_reg v c) | None => None end.
+
   (* Router.handle_request, from the view lookup on *)
   Definition handle_request : trace * res :=
     let '(tr, o) := call_view5 fuel0 view_classifier (q_main_sro q) (q_view_name (q_base q)) (q_ctx q) in
@@ -288,7 +380,8 @@ Record vopts := mkVO {
   o_exc_only : bool;
   o_wrapper : text;
   o_deco : bool;
-  o_behave : behave
+  o_behave : behave;
+  o_csrf : bool              (* require_csrf=True *)
 }.
 
 Inductive stmt :=
@@ -305,10 +398,10 @@ Inductive action := APolicy | ADefPerm (p : text) | AView (o : vopts) (b : body)
 
 Definition force (f : bool * option text) (o : vopts) : vopts :=
   mkVO (o_tag o) (o_req o) (o_ctx o) (o_name o) (o_kw o) (snd f) (o_isexc o) (fst f) (o_wrapper o) (o_deco o)
-       (o_behave o).
+       (o_behave o) (forced_require_csrf && o_csrf o).
 Definition with_perm (p : option text) (o : vopts) : vopts :=
   mkVO (o_tag o) (o_req o) (o_ctx o) (o_name o) (o_kw o) p (o_isexc o) (o_exc_only o) (o_wrapper o) (o_deco o)
-       (o_behave o).
+       (o_behave o) (o_csrf o).
 
 (* what the directive does when it is written; st = the registry state at that moment *)
 Definition directive (st : regstate) (s : stmt) : option action :=
@@ -346,7 +439,7 @@ Definition derive1 (st : regstate) (cls : N) (exc_only : bool) (o : vopts) (b : 
       Some (mkD (mkReg (mkSlot cls (o_req o) (o_ctx o) (o_name o)) (rtag (o_tag o) exc_only)
                        (m_preds m) (m_order m) (m_phash m) None
                        (is_some perm && mem_text nm_call_permissive preserved_attrs))
-                perm (o_wrapper o) (o_deco o) b)
+                perm (o_wrapper o) (o_deco o) b (o_csrf o))
   end.
 
 Definition reg1 (s : cstate) (d : dview) : cstate :=
@@ -381,7 +474,7 @@ Definition commit (s : cstate) (batch : list stmt) : cstate :=
    WebobWSGIHTTPException, committed before any user statement (no policy, no default permission) *)
 Definition builtin_tag : N := 4500%N.
 Definition builtin_opts (t irequest ictx : N) : vopts :=
-  mkVO t irequest ictx [] [] None true false [] false BReturn.
+  mkVO t irequest ictx [] [] None true false [] false BReturn false.
 Definition init_state (irequest ier iwsgi : N) : cstate :=
   fold_left exec_action
             [AView (builtin_opts builtin_tag irequest ier) (Plain BReturn);
@@ -393,6 +486,8 @@ Definition configure (irequest ier iwsgi : N) (batches : list (list stmt)) : cst
 
 Definition run_request (s : cstate) (tb : grants) (q : rq5) : trace * final :=
   router_call (cs_R s) (cs_D s) tb q.
+Definition run_render (s : cstate) (tb : grants) (secure : bool) (q : rq5) : trace * res :=
+  render_view (cs_R s) (cs_D s) tb q secure.
 
 (* ------------------------------------------------------------------ *)
 (* declarative specification: the property's wording, over the program as written *)
@@ -496,17 +591,20 @@ Fixpoint j2 (fin : final) (pending inexc : bool) (tr : trace) : N :=
   end.
 
 (* J3 a granted check is made on behalf of the view that runs next, and that view is protected by exactly
-   this permission for this context *)
-Fixpoint j3 (prog : list stmt) (tr : trace) : bool :=
+   this permission for this context; the only thing that may come between the check and the view is the view's own
+   CSRF check failing (BadCSRFToken) *)
+Fixpoint j3 (prog : list stmt) (fin : final) (tr : trace) : bool :=
   match tr with
   | [] => true
   | Permits p c true :: r =>
       (match r with
        | Body t c' :: _ | Deco t c' :: _ =>
            ctx_eqb c c' && match protected prog t c with Some p' => text_eqb p p' | None => false end
+       | Raised ECsrf :: _ => true          (* the CSRF check of that view (csrf_view sits under secured_view) refused *)
+       | [] => match fin with Propagated ECsrf => true | _ => false end
        | _ => false
-       end) && j3 prog r
-  | _ :: r => j3 prog r
+       end) && j3 prog fin r
+  | _ :: r => j3 prog fin r
   end.
 
 (* J4 never blocked otherwise: HTTPForbidden reaches the tween only after a refusal or from application code *)
@@ -537,7 +635,7 @@ Fixpoint j5 (prog : list stmt) (tr : trace) : bool :=
 (* bit mask of the failed clauses: 1 mediation, 2 refusal, 4 refusal inside exception rendering,
    8 granted check not on behalf of the next view, 16 blocked without refusal, 32 stray check *)
 Definition judge (prog : list stmt) (tr : trace) (fin : final) : N :=
-  ((if j1 prog [] tr then 0 else 1) + j2 fin false false tr + (if j3 prog tr then 0 else 8)
+  ((if j1 prog [] tr then 0 else 1) + j2 fin false false tr + (if j3 prog fin tr then 0 else 8)
    + (if j4 prog fin None false tr then 0 else 16) + (if j5 prog tr then 0 else 32))%N.
 
 (* observation level: events name the statement (tag of the registration div 2) *)
@@ -551,13 +649,27 @@ Definition proj_event (e : event) : list event :=
 Definition proj_trace (tr : trace) : trace := flat_map proj_event tr.
 Definition proj_final (f : final) : final := match f with Resp rt => Resp (stag rt) | f => f end.
 
+(* the assumption under which the observation-level judge recognises the variant that ran from the context
+   (exception-context views are unnamed, so their normal variant is never reached): checked on every model trace *)
+Definition variant_ev (prog : list stmt) (e : event) : bool :=
+  match e with
+  | Body rt c | Deco rt c =>
+      if N.leb (2 * builtin_tag) rt then true
+      else match find_stmt prog (N.div rt 2) with
+           | Some s => Bool.eqb (as_exc_of s c) (N.odd rt)
+           | None => true
+           end
+  | _ => true
+  end.
+Definition variant_okb (prog : list stmt) (tr : trace) : bool := forallb (variant_ev prog) tr.
+
 (* ------------------------------------------------------------------ *)
 (* wire glue *)
 
 Definition get_exc (v : val) : option exc :=
   match v with
   | VI 0%Z => Some EForbidden | VI 1%Z => Some ENotFound | VI 2%Z => Some EPredMismatch
-  | VI 3%Z => Some EValueError | VI 4%Z => Some EBoom | _ => None
+  | VI 3%Z => Some EValueError | VI 4%Z => Some EBoom | VI 5%Z => Some ECsrf | _ => None
   end.
 Definition put_exc (e : exc) : val := vnat (exc_index e).
 Definition get_ctx (v : val) : option ctx :=
@@ -575,11 +687,11 @@ Definition get_behave (v : val) : option behave :=
   end.
 Definition get_vopts (v : val) : option vopts :=
   match v with
-  | VL [tg; rq; cx; VT nm; kw; pm; ie; eo; VT wr; dc; bh] =>
+  | VL [tg; rq; cx; VT nm; kw; pm; ie; eo; VT wr; dc; bh; cs] =>
       olet tg := get_N tg in olet rq := get_N rq in olet cx := get_N cx in olet kw := get_kw kw in
       olet pm := get_opt get_text pm in olet ie := get_bool ie in olet eo := get_bool eo in
-      olet dc := get_bool dc in olet bh := get_behave bh in
-      Some (mkVO tg rq cx nm kw pm ie eo wr dc bh)
+      olet dc := get_bool dc in olet bh := get_behave bh in olet cs := get_bool cs in
+      Some (mkVO tg rq cx nm kw pm ie eo wr dc bh cs)
   | _ => None
   end.
 Definition get_stmt (v : val) : option stmt :=
@@ -598,11 +710,11 @@ Definition get_grant (v : val) : option (text * ctx) :=
   match v with VL [VT p; c] => olet c := get_ctx c in Some (p, c) | _ => None end.
 Definition get_rq5 (v : val) : option rq5 :=
   match v with
-  | VL [VT meth; xhr; truth; VT vn; c; msro; csro; wsro; rsro; esro] =>
+  | VL [VT meth; xhr; truth; VT vn; c; msro; csro; wsro; rsro; esro; cok] =>
       olet xhr := get_bool xhr in olet truth := get_Ns truth in olet c := get_ctx c in
       olet msro := get_Ns msro in olet csro := get_Ns csro in olet wsro := get_Ns wsro in
-      olet rsro := get_Ns rsro in olet esro := get_list_of get_Ns esro in
-      Some (mkRq5 (mkReq meth [] [] xhr None false [] [] false [] [] truth [] [] vn) c msro csro wsro rsro esro)
+      olet rsro := get_Ns rsro in olet esro := get_list_of get_Ns esro in olet cok := get_bool cok in
+      Some (mkRq5 (mkReq meth [] [] xhr None false [] [] false [] [] truth [] [] vn) c msro csro wsro rsro esro cok)
   | _ => None
   end.
 
@@ -631,6 +743,16 @@ Definition get_final (v : val) : option final :=
   | _ => None
   end.
 
+Definition put_res (r : res) : val :=
+  match r with Ret t => VL [VI 0; vN (stag t)] | Raise e => VL [VI 1; put_exc e] | NoView => VL [VI 3] | Stuck => VL [VI 2] end.
+(* a request is [rq5 fields...] (through the router) or [VI 9; secure; rq5] (render_view_to_response called directly) *)
+Inductive op5 := OpRouter (q : rq5) | OpRender (secure : bool) (q : rq5).
+Definition get_op5 (v : val) : option op5 :=
+  match v with
+  | VL [VI 9%Z; sec; r] => olet sec := get_bool sec in olet r := get_rq5 r in Some (OpRender sec r)
+  | _ => olet r := get_rq5 v in Some (OpRouter r)
+  end.
+
 Definition put_operm (o : option text) : val := vopt VT o.
 
 (* what the model says each registered variant is protected by, next to the property's answer:
@@ -642,7 +764,7 @@ Definition put_dtab (prog : list stmt) (D : list (N * dview)) : val :=
                          put_operm (protected prog (stag rt) (CExc EBoom))]) D).
 
 (* case   = [0; irequest; ier; iwsgi; batches; grants; requests]
-   answer = [dtab; [[projected trace; projected final; judge mask of that observation] per request]]
+   answer = [dtab; [[projected trace; projected final; judge mask of that observation; variant_okb] per request]]
    judge  = [1; batches; [[trace; final] per request]]  ->  [mask per request]  (run on the implementation's log) *)
 Definition run_C05 (v : val) : val :=
   ret_or_bad (
@@ -651,14 +773,22 @@ Definition run_C05 (v : val) : val :=
         olet irq := get_N irq in olet ier := get_N ier in olet iwsgi := get_N iwsgi in
         olet bs := get_list_of (get_list_of get_stmt) bs in
         olet gs := get_list_of get_grant gs in
-        olet rqs := get_list_of get_rq5 rqs in
+        olet rqs := get_list_of get_op5 rqs in
         let prog := concat bs in
         let s := configure irq ier iwsgi bs in
         Some (VL [put_dtab prog (cs_D s);
-                  VL (map (fun q => let '(tr, fin) := run_request s gs q in
-                                    let tr' := proj_trace tr in
-                                    let fin' := proj_final fin in
-                                    VL [VL (map put_event tr'); put_final fin'; vN (judge prog tr' fin')]) rqs)])
+                  VL (map (fun op =>
+                             match op with
+                             | OpRouter q =>
+                                 let '(tr, fin) := run_request s gs q in
+                                 let tr' := proj_trace tr in
+                                 let fin' := proj_final fin in
+                                 VL [VL (map put_event tr'); put_final fin'; vN (judge prog tr' fin');
+                                     vbool (variant_okb prog tr)]
+                             | OpRender sec q =>            (* outside the property: correspondence only *)
+                                 let '(tr, o) := run_render s gs sec q in
+                                 VL [VL (map put_event (proj_trace tr)); put_res o; vN 0%N; vbool true]
+                             end) rqs)])
     | VL [VI 1%Z; bs; obs] =>
         olet bs := get_list_of (get_list_of get_stmt) bs in
         olet obs := get_list_of (fun o => match o with
